@@ -19,6 +19,7 @@ package server
 
 import (
 	"bytes"
+	"encoding/json"
 	"fmt"
 	"os"
 	"reflect"
@@ -32,12 +33,12 @@ import (
 // ---------------------------------------------------------------- reporting
 
 type vfC14Ctx struct {
-	env  *vfEnv
-	part *vfPart
-	i    int
-	rng  *vfRand
+	env    *vfEnv
+	part   *vfPart
+	i      int
+	rng    *vfRand
 	stride int
-	nrep int
+	nrep   int
 }
 
 var vfC14SigSeen = map[string]int{}
@@ -351,8 +352,12 @@ func (p vfC14Parsed) String() string {
 // is consumed the next chunk is placed at its start (ReadFromConn(rbuf) +
 // BufferUpdate(n)), ParseRequest/ParseResponse is called, and on
 // IsParseFinish() the arguments are taken and Reset() is called.
+var vfC14RBuf, vfC14WBuf = make([]byte, 1024), make([]byte, 1024)
+
 func vfC14Drive(chunks [][]byte, response bool) (out []vfC14Parsed, complete bool, perr error, herr string) {
-	parser := protocol.NewTextParser(make([]byte, 1024), make([]byte, 1024))
+	// fresh parser state per run; the two 1024-byte buffers are reused (a
+	// connection's buffer holds stale bytes of earlier reads as well)
+	parser := protocol.NewTextParser(vfC14RBuf, vfC14WBuf)
 	rbuf := parser.GetReadBuf()
 	ci, total := 0, 0
 	for _, ch := range chunks {
@@ -645,7 +650,11 @@ func vfC14Splits(r *vfRand, total int, edges []int) [][]int {
 	for k := 0; k < nrand; k++ {
 		switch k % 6 {
 		case 0:
-			walk(func(int) int { return r.Range(1, 64) })
+			if total <= 16384 {
+				walk(func(int) int { return r.Range(1, 64) })
+			} else { // the parser appends piecewise: keep huge arguments to ~100 pieces
+				walk(func(int) int { return r.Range(256, 1024) })
+			}
 		case 1:
 			walk(func(int) int { return r.Range(1, 1024) })
 		case 2:
@@ -862,14 +871,23 @@ var vfC14Assumptions = []string{
 	"CALL method names / error types are generated without NUL bytes (NUL is the pad byte); lengths 0..38 / 0..37 (bounds of CallCommand.Encode / CallResultCommand.Encode); LeaderResult host 0..43 bytes with HostLen = len(Host)",
 	"decode->encode compares only the bytes covered by a table field; padding is not compared. Encode is additionally required to define all 64 bytes (two encodings into differently pre-filled buffers must be equal)",
 	"text parser: driven like TextServerProtocol.Process / TextClientProtocol.Read (fresh parser with 1024-byte buffers, each chunk <= 1024 bytes copied to the start of the read buffer + BufferUpdate); every 2-way split for streams <= 300 bytes, every 3-way split for streams <= 48 bytes, PRNG and token-edge k-way splits otherwise; 1-3 pipelined commands / responses per stream; status and error lines are generated without CR/LF, error types without spaces; the parser has no inline-command syntax (probe counted, not a finding)",
-	"server sub-checks use one in-process leader per shard process (manual clock, so nothing expires), fresh 16-byte keys per case, Flag 0, TimeoutFlag in {0,0x10}, ExpriedFlag in {0,0x40,0x200,0x240}, Expried >= 60, DbId in {0,1,2}; every case unlocks what it locked",
+	"server sub-checks use an in-process leader per shard process (manual clock, so nothing expires; replaced every 400 uses), connections are in-memory net.Conn objects whose Read hands out the prepared chunks, the protocols are driven through their Process() loops as Server.handle does; text requests of the equivalence sub-check are chunked at PRNG positions except the read pattern of the request-parser defect reported by the parser sub-check (an argument body read in pieces whose last piece ends the read), so that the two sub-checks report independently; fresh 16-byte keys per case, Flag 0, TimeoutFlag in {0,0x10}, ExpriedFlag in {0,0x40,0x200,0x240}, Expried >= 60, DbId in {0,1,2}; every case unlocks what it locked",
 	"text COUNT / RCOUNT: README documents them as the maximum number of locks / re-entries, the binary fields mean one less (COUNT n == binary Count n-1, reply COUNT == binary reply Count+1); checked for COUNT 0..65535 and RCOUNT 0..255 (COUNT 0 / RCOUNT 0 behave as 1)",
+	"first-frame sub-check: Server.checkProtocol (README: 'the first time the data received will distinguish between the protocol type') is given the first LOCK frame of a connection whole and in two reads; the statement names only the text parser for split independence, the title ('independent of framing') is read as covering the binary first frame as well",
 	"distinct_nontrivial counts hashes of (sub-check, input bytes); in the thorough tier only every k-th case is hashed (k = cases/500000) to bound the evidence size, the counter nontrivial_cases has the full count",
 }
 
 func TestVerif_C14(t *testing.T) {
 	start := time.Now()
 	env := vfGetEnv("C14")
+	if env.Replay != "" { // a replay document names the seed its case was drawn with
+		var doc struct {
+			Seed int64 `json:"seed"`
+		}
+		if b, err := os.ReadFile(env.Replay); err == nil && json.Unmarshal(b, &doc) == nil && doc.Seed != 0 {
+			env.Seed = doc.Seed
+		}
+	}
 	n := env.N(50000, 5000000)
 	stride := n / 500000
 	types := vfC14Types()
